@@ -421,7 +421,7 @@ namespace
 	}
 	value tofixed_scalar(runtime& runtime, value::cref right)
 	{
-		auto i = right.data<d_scalar, int>();
+		auto i = d_scalar::saturate_cast<int>(right.data<d_scalar, float>());
 		if (i > 20)
 		{
 			i = 20;
@@ -435,7 +435,7 @@ namespace
 	}
 	value tofixed_scalar_scalar(runtime& runtime, value::cref left, value::cref right)
 	{
-		auto i = right.data<d_scalar, int>();
+		auto i = d_scalar::saturate_cast<int>(right.data<d_scalar, float>());
 		if (i > 20)
 		{
 			i = 20;
